@@ -46,8 +46,11 @@ type Prop struct {
 	Conflicts     []string `json:"conflicts,omitempty"`
 	Default       *string  `json:"default,omitempty"` // JSON
 	Disabled      bool     `json:"disabled,omitempty"`
-	EmptyDefault  bool     `json:"empty_is_default,omitempty"`
-	DisplayName   string   `json:"display_name,omitempty"`
+	// DisabledNoReason: disabled by setting the exported field, without a reason (what a received description with
+	// `disabled: true` and no `disabled_reason` yields; the Disable builder always sets a reason)
+	DisabledNoReason bool   `json:"disabled_no_reason,omitempty"`
+	EmptyDefault     bool   `json:"empty_is_default,omitempty"`
+	DisplayName      string `json:"display_name,omitempty"`
 }
 
 // Member is one alternative of a one-of.
@@ -369,7 +372,11 @@ func buildProps(s *Spec) map[string]*schema.PropertySchema {
 		}
 		ps := schema.NewPropertySchema(Build(p.Type), disp, p.Required, p.RequiredIf, p.RequiredIfNot, p.Conflicts, p.Default, nil)
 		if p.Disabled {
-			ps.Disable("disabled for the test")
+			if p.DisabledNoReason {
+				ps.Disabled = true
+			} else {
+				ps.Disable("disabled for the test")
+			}
 		}
 		if p.EmptyDefault {
 			ps.TreatEmptyAsDefaultValue()
